@@ -12,7 +12,7 @@ RULE = ("exhaustive: every raster over {0,1} with <= 12 cells (thorough 14) and 
         "<= 12x12 rings/spirals/combs/noise in int32/int64/float32/float64 (incl. large integer ids differing by one), C/F/transposed/strided/negative-stride memory layouts of raster and mask, random masks and affine transforms; oracle = "
         "even-odd point-in-polygon rasteriser + BFS components; non-trivial = distinct (raster, mask, connectivity) with a hole, "
         "a provisional-label merge or an 8-connected pinch")
-BUDGET = {'quick': 120, 'thorough': 1200}
+BUDGET = {'quick': 240, 'thorough': 1200}
 FLOORS = {'quick': {'lossless': 40000, 'with_hole': 300, 'needs_merge': 3000, 'masked': 5000, 'single_column': 100,
                     'pinch8': 1000, 'transform': 100, 'nested_hole': 5, 'layout.non_C': 139, 'bigint_ids': 40},
           'thorough': {'lossless': 300000, 'with_hole': 3000, 'nested_hole': 50}}
@@ -225,6 +225,26 @@ def check(rec, kind, idx, rng, tier):
             a = a.T.copy()
         H, W = a.shape
         skind = 'unique_cells+U'
+    comb = rng.random() < 0.06
+    if comb:
+        # a long comb: N teeth on every other column, neighbouring teeth bridged alternately on two rows, a separate first
+        # column and a full-width bar that only the last tooth reaches - one region whose provisional ids are merged through a
+        # chain of N links before the chain meets a still lower id
+        N = int(rng.integers(10, 33))
+        a = np.zeros((5, 3 + 2 * N))
+        a[:, 0] = 1
+        for t in range(N):
+            a[0:3, 2 + 2 * t] = 1
+        for t in range(N - 1):
+            a[1 if t % 2 == 0 else 2, 3 + 2 * t] = 1
+        a[3, 2 + 2 * (N - 1)] = 1
+        a[4, :] = 1
+        o = int(rng.integers(0, 4))
+        if o == 1: a = a[::-1].copy()
+        elif o == 2: a = a[:, ::-1].copy()
+        elif o == 3: a = a.T.copy()
+        H, W = a.shape
+        skind = 'long_comb'
     dt = str(rng.choice(['int32', 'int64', 'float32', 'float64']))
     a = (a * float(rng.choice([1, 1, 5])) + float(rng.choice([0, 0, -2, 40]))).astype(dt)
     if np.dtype(dt).kind == 'i' and rng.random() < 0.35:
@@ -235,7 +255,7 @@ def check(rec, kind, idx, rng, tier):
         # unsigned 64-bit ids at the top of the range
         dt = 'uint64'; a = (a.astype('int64') - a.astype('int64').min()).astype('uint64') + np.uint64(2 ** 64 - 8); skind += '+uint64_top'
     mask = None
-    if rng.random() < 0.5:
+    if rng.random() < 0.5 and not comb:
         mask = rng.random((H, W)) < float(rng.choice([0.5, 0.8, 0.95]))
     mdt = str(rng.choice(['bool', 'int64', 'float64']))
     lay = str(rng.choice(['C', 'C', 'F', 'strided', 'neg', 'T']))
